@@ -1,11 +1,10 @@
 /-
-C13: invariants over event sequences.  Where the stored headers and the main-chain index
-entries of a reachable state come from:
+C13: invariants over event sequences, for ARBITRARY delivery order.  Where the stored headers and
+the main-chain index entries of a reachable state come from:
 
-* a stored header was either stored at the start, or saved by a delivery that passed
-  `validBlock` with its parent stored (`Validated`) — for deliveries in parents-first order
-  (`ParentsFirst`): the model does not re-validate a block that waits in the orphan pool (the real
-  `saveBlock` does), so nothing is claimed about blocks that arrive before their parent;
+* a stored header was either stored at the start, or its block was saved by `saveBlock` — after
+  its own delivery, or when it left the orphan pool — in a node state in which its parent was
+  stored and `validBlock` answered true (`ValidatedBetween` / `StoredValid`);
 * a main-chain index entry was either there at the start, or written by a move whose attach list
   contains the block (`Attached`), i.e. the block passed `applyBlockTxs` at its turn.
 -/
@@ -20,89 +19,202 @@ theorem noOrphans_of_isEmpty (s : NodeLedger.State) (h1 : s.node.orphans.isEmpty
     (h2 : s.node.prevOrphans.isEmpty = true) : NoOrphans s :=
   ⟨List.isEmpty_iff.mp h1, List.isEmpty_iff.mp h2⟩
 
-/-- every delivered block's parent is stored when the block is delivered -/
-def ParentsFirst (init : NodeLedger.State) (evs : List Ev) : Prop :=
-  ∀ pre b suf, evs = pre ++ Ev.deliver b :: suf → ((run init pre).node.header b.parent).isSome = true
+/-! ### stored headers stay stored -/
 
-/-- block `id` was delivered with its parent stored and passed `validBlock` in that state -/
-def Validated (init : NodeLedger.State) (evs : List Ev) (id : Nat) : Prop :=
-  ∃ pre b suf, evs = pre ++ Ev.deliver b :: suf ∧ b.id = id ∧
-    ((run init pre).node.header b.parent).isSome = true ∧ (run init pre).validBlock b = true
+theorem lookup_filter_ne (hs : List Header) (k x : Nat) (hne : k ≠ x) :
+    lookupHeader (hs.filter (fun h => h.id != x)) k = lookupHeader hs k := by
+  unfold lookupHeader
+  induction hs with
+  | nil => rfl
+  | cons h t ih =>
+    by_cases hx : h.id = x
+    · have hk : (x == k) = false := beq_false_of_ne (fun e => hne e.symm)
+      simp only [List.filter_cons, hx, bne_self_eq_false, Bool.false_eq_true, if_false, List.find?_cons, hk]
+      exact ih
+    · have hx' : (h.id != x) = true := by simpa using hx
+      simp only [List.filter_cons, hx', if_true, List.find?_cons]
+      cases h.id == k
+      · exact ih
+      · rfl
 
-/-- block `id` was attached to the main chain by an accepted reorganisation -/
-def Attached (init : NodeLedger.State) (evs : List Ev) (id : Nat) : Prop :=
-  ∃ pre e suf att det a, evs = pre ++ e :: suf ∧
-    Moved (run init pre) (step (run init pre) e) att det ∧ a ∈ att ∧ a.id = id
+/-- every stored id stays stored -/
+def StoredMono (s s' : Node.State) : Prop := ∀ id, (s.header id).isSome = true → (s'.header id).isSome = true
 
-theorem Validated.cons {init : NodeLedger.State} {e : Ev} {evs : List Ev} {id : Nat}
-    (h : Validated (step init e) evs id) : Validated init (e :: evs) id := by
-  obtain ⟨pre, b, suf, h1, h2, h3, h4⟩ := h
-  exact ⟨e :: pre, b, suf, by rw [h1]; rfl, h2, h3, h4⟩
+theorem StoredMono.refl (s : Node.State) : StoredMono s s := fun _ h => h
+theorem StoredMono.trans {a b c : Node.State} (h1 : StoredMono a b) (h2 : StoredMono b c) : StoredMono a c :=
+  fun id h => h2 id (h1 id h)
+theorem StoredMono.of_eq {s s' : Node.State} (h : s'.headers = s.headers) : StoredMono s s' := by
+  intro id hi; simp only [State.header, h]; exact hi
 
-theorem Validated.append {init : NodeLedger.State} {evs : List Ev} {id : Nat}
-    (h : Validated init evs id) (more : List Ev) : Validated init (evs ++ more) id := by
-  obtain ⟨pre, b, suf, h1, h2, h3, h4⟩ := h
-  exact ⟨pre, b, suf ++ more, by rw [h1]; simp, h2, h3, h4⟩
+theorem header_cons_filter (hs : List Header) (hd : Header) (k : Nat) :
+    lookupHeader (hd :: hs.filter (fun h => h.id != hd.id)) k =
+      if hd.id = k then some hd else lookupHeader hs k := by
+  by_cases e : hd.id = k
+  · simp [lookupHeader, e]
+  · have : (hd.id == k) = false := beq_false_of_ne e
+    simp only [e, if_false]
+    rw [← lookup_filter_ne hs k hd.id (fun x => e x.symm)]
+    simp [lookupHeader, this]
 
-theorem Attached.cons {init : NodeLedger.State} {e : Ev} {evs : List Ev} {id : Nat}
-    (h : Attached (step init e) evs id) : Attached init (e :: evs) id := by
-  obtain ⟨pre, e', suf, att, det, a, h1, h2, h3, h4⟩ := h
-  exact ⟨e :: pre, e', suf, att, det, a, by rw [h1]; rfl, h2, h3, h4⟩
+theorem saveBlock_storedMono (s : Node.State) (b : Header) : StoredMono s (s.saveBlock b).1 := by
+  cases hok : (s.saveBlock b).2 with
+  | false => exact StoredMono.of_eq (saveBlock_headers_of_fail s b hok)
+  | true =>
+    intro id hi
+    have hh := (saveBlock_headers_of_ok s b hok).1
+    have e := header_cons_filter s.headers (savedHeader s b) id
+    simp only [State.header, hh]
+    rw [show (fun (h : Header) => h.id != b.id) = (fun h => h.id != (savedHeader s b).id) from rfl, e]
+    split
+    · rfl
+    · exact hi
 
-theorem ParentsFirst.head {init : NodeLedger.State} {b : Header} {evs : List Ev}
-    (h : ParentsFirst init (Ev.deliver b :: evs)) : (init.node.header b.parent).isSome = true :=
-  h [] b evs rfl
+theorem saveBlock_stores (s : Node.State) (b : Header) (hok : (s.saveBlock b).2 = true) :
+    (s.saveBlock b).1.header b.id = some (savedHeader s b) := by
+  have hh := (saveBlock_headers_of_ok s b hok).1
+  simp only [State.header, hh]
+  rw [show (fun (h : Header) => h.id != b.id) = (fun h => h.id != (savedHeader s b).id) from rfl,
+    header_cons_filter]
+  simp [savedHeader]
 
-theorem ParentsFirst.tail {init : NodeLedger.State} {e : Ev} {evs : List Ev}
-    (h : ParentsFirst init (e :: evs)) : ParentsFirst (step init e) evs := by
-  intro pre b suf he
-  exact h (e :: pre) b suf (by rw [he]; rfl)
+theorem foldl_storedMono {α : Type} (f : Node.State → α → Node.State) (hf : ∀ st a, StoredMono st (f st a)) :
+    ∀ (l : List α) (s : Node.State), StoredMono s (l.foldl f s)
+  | [], s => StoredMono.refl s
+  | a :: l, s => by
+    rw [List.foldl_cons]
+    exact StoredMono.trans (hf s a) (foldl_storedMono f hf l (f s a))
 
-theorem ParentsFirst.prefix {init : NodeLedger.State} {a b : List Ev}
-    (h : ParentsFirst init (a ++ b)) : ParentsFirst init a := by
-  intro pre x suf he
-  exact h pre x (suf ++ b) (by rw [he]; simp)
 
-/-! ### one delivery -/
+theorem StoredMono.of_eq' {s s' : Node.State} (h : s'.headers = s.headers) : StoredMono s s' := StoredMono.of_eq h
 
-theorem processBlock_eq (s : NodeLedger.State) (b : Header) :
-    s.processBlock b =
-      if (!(alreadyProcessed s.node b) && (s.node.header b.parent).isSome && !s.validBlock b) = true then (s, .err)
-      else s.settle (s.node.processBlock b).1 (s.node.processBlock b).2 := by
-  unfold NodeLedger.State.processBlock alreadyProcessed
-  rfl
+/-! ### provenance of stored headers inside one chain step -/
 
-/-- a delivery with the parent stored and no orphans around: the stored headers are unchanged,
-    or the block passed `validBlock` and its header was stored (replacing an older copy) -/
-theorem deliver_headers (s : NodeLedger.State) (b : Header) (hno : NoOrphans s)
-    (hp : (s.node.header b.parent).isSome = true) :
-    NoOrphans (s.processBlock b).1 ∧
-    ((s.processBlock b).1.node.headers = s.node.headers ∨
-     (s.validBlock b = true ∧
-      (s.processBlock b).1.node.headers = savedHeader s.node b :: s.node.headers.filter (fun h => h.id != b.id))) := by
-  rw [processBlock_eq]
+/-- block `id` passed `validBlock` in a node state `n` that lies between `a` and `c` (everything
+    stored in `a` is stored in `n`, everything stored in `n` is stored in `c`), with its parent
+    stored in `n`; `P` says which blocks can be meant (the delivered one, the waiting ones) -/
+def ValidatedBetween (env : NodeLedger.State) (P : Header → Prop) (a c : Node.State) (id : Nat) : Prop :=
+  ∃ n x, x.id = id ∧ P x ∧ StoredMono a n ∧ StoredMono n c ∧ (n.header x.parent).isSome = true ∧
+    env.validIn n x = true
+
+/-- every header stored in `c` has the id of a header stored in `a`, or was validated between -/
+def Prov (env : NodeLedger.State) (P : Header → Prop) (a c : Node.State) : Prop :=
+  StoredMono a c ∧ ∀ h, h ∈ c.headers → (∃ h0, h0 ∈ a.headers ∧ h0.id = h.id) ∨ ValidatedBetween env P a c h.id
+
+theorem Prov.refl (env : NodeLedger.State) (P : Header → Prop) (a : Node.State) : Prov env P a a :=
+  ⟨StoredMono.refl a, fun h hh => Or.inl ⟨h, hh, rfl⟩⟩
+
+theorem Prov.of_eq (env : NodeLedger.State) (P : Header → Prop) {a c : Node.State} (h : c.headers = a.headers) :
+    Prov env P a c :=
+  ⟨StoredMono.of_eq h, fun x hx => Or.inl ⟨x, h ▸ hx, rfl⟩⟩
+
+theorem Prov.trans {env : NodeLedger.State} {P : Header → Prop} {a b c : Node.State}
+    (h1 : Prov env P a b) (h2 : Prov env P b c) : Prov env P a c := by
+  refine ⟨StoredMono.trans h1.1 h2.1, ?_⟩
+  intro h hh
+  rcases h2.2 h hh with ⟨h0, hm, hid⟩ | ⟨n, x, e, px, m1, m2, hp, hv⟩
+  · rcases h1.2 h0 hm with ⟨h00, hm0, hid0⟩ | ⟨n, x, e, px, m1, m2, hp, hv⟩
+    · exact Or.inl ⟨h00, hm0, hid0.trans hid⟩
+    · exact Or.inr ⟨n, x, e.trans hid, px, m1, StoredMono.trans m2 h2.1, hp, hv⟩
+  · exact Or.inr ⟨n, x, e, px, StoredMono.trans h1.1 m1, m2, hp, hv⟩
+
+theorem saveBlockVn_prov (env : NodeLedger.State) (P : Header → Prop) (n : Node.State) (b : Header) (hb : P b) :
+    Prov env P n (env.saveBlockVn n b).1 := by
+  rcases saveBlockVn_cases env n b with ⟨_, e⟩ | ⟨hv, e⟩ <;> rw [e]
+  · exact Prov.refl env P n
+  · cases hok : (n.saveBlock b).2 with
+    | false => exact Prov.of_eq env P (saveBlock_headers_of_fail n b hok)
+    | true =>
+      obtain ⟨hh, hp, _⟩ := saveBlock_headers_of_ok n b hok
+      refine ⟨saveBlock_storedMono n b, ?_⟩
+      intro h hm
+      rw [hh] at hm
+      rcases List.mem_cons.mp hm with e1 | e1
+      · right
+        exact ⟨n, b, by rw [e1]; rfl, hb, StoredMono.refl n, saveBlock_storedMono n b, hp, hv⟩
+      · left; exact ⟨h, (List.mem_filter.mp e1).1, rfl⟩
+
+theorem saveBlockVn_orphans_sub (env : NodeLedger.State) (n : Node.State) (b : Header) :
+    ∀ x, x ∈ (env.saveBlockVn n b).1.orphans → x ∈ n.orphans := by
+  rcases saveBlockVn_cases env n b with ⟨_, e⟩ | ⟨_, e⟩ <;> rw [e]
+  · exact fun _ h => h
+  · exact saveBlock_orphans_sub n b
+
+theorem foldl_prov {env : NodeLedger.State} {P : Header → Prop} (f : Node.State → Nat → Node.State) (n0 : Node.State)
+    (hf : ∀ st o, (∀ x, x ∈ st.orphans → x ∈ n0.orphans) →
+      Prov env P st (f st o) ∧ (∀ x, x ∈ (f st o).orphans → x ∈ n0.orphans)) :
+    ∀ (l : List Nat) (st : Node.State), (∀ x, x ∈ st.orphans → x ∈ n0.orphans) →
+      Prov env P st (l.foldl f st) ∧ (∀ x, x ∈ (l.foldl f st).orphans → x ∈ n0.orphans)
+  | [], st, hst => ⟨Prov.refl env P st, hst⟩
+  | o :: os, st, hst => by
+    rw [List.foldl_cons]
+    obtain ⟨p1, s1⟩ := hf st o hst
+    obtain ⟨p2, s2⟩ := foldl_prov f n0 hf os (f st o) s1
+    exact ⟨Prov.trans p1 p2, s2⟩
+
+/-- `saveSubBlock` with validation: provenance, and the pool only shrinks -/
+theorem saveSubBlockVn_prov (env : NodeLedger.State) (P : Header → Prop) :
+    ∀ (fuel : Nat) (n : Node.State) (id : Nat), (∀ x, x ∈ n.orphans → P x) →
+      Prov env P n (NodeLedger.State.saveSubBlockVn env fuel n id) ∧
+      (∀ x, x ∈ (NodeLedger.State.saveSubBlockVn env fuel n id).orphans → x ∈ n.orphans)
+  | 0, n, _, _ => ⟨Prov.refl env P n, fun _ h => h⟩
+  | fuel + 1, n, id, hn => by
+    rw [saveSubBlockVn_succ]
+    cases alistGet n.prevOrphans id with
+    | none => exact ⟨Prov.refl env P n, fun _ h => h⟩
+    | some w =>
+      simp only
+      apply foldl_prov (subStepV env fuel) n _ w n (fun _ h => h)
+      intro st o hst
+      unfold subStepV
+      cases hl : lookupHeader st.orphans o with
+      | none => exact ⟨Prov.refl env P st, hst⟩
+      | some ob =>
+        simp only
+        have hob : P ob := hn ob (hst ob (lookupHeader_mem hl))
+        have p1 := saveBlockVn_prov env P st ob hob
+        have hsub : ∀ x, x ∈ (env.saveBlockVn st ob).1.orphans → x ∈ n.orphans :=
+          fun x hx => hst x (saveBlockVn_orphans_sub env st ob x hx)
+        cases (env.saveBlockVn st ob).2 with
+        | false =>
+          simp only [if_true]
+          exact ⟨Prov.trans p1 (Prov.of_eq env P (orphanDelete_headers _ _)),
+            fun x hx => hsub x (orphanDelete_orphans_sub _ _ x hx)⟩
+        | true =>
+          simp only [Bool.true_eq_false, if_false]
+          obtain ⟨p2, s2⟩ := saveSubBlockVn_prov env P fuel (env.saveBlockVn st ob).1 o (fun x hx => hn x (hsub x hx))
+          exact ⟨Prov.trans p1 p2, fun x hx => hsub x (s2 x hx)⟩
+
+theorem orphanAdd_orphans_sub (s : Node.State) (b : Header) :
+    ∀ x, x ∈ (s.orphanAdd b).orphans → x = b ∨ x ∈ s.orphans := by
+  unfold State.orphanAdd
   split
-  · exact ⟨hno, Or.inl rfl⟩
-  · rename_i hc
-    obtain ⟨_, hh, _, _, ho, hpo, _, _⟩ := settle_frame s (s.node.processBlock b).1 (s.node.processBlock b).2
-    unfold NoOrphans
-    rw [hh, ho, hpo]
-    rcases node_processBlock_cases s.node b with ⟨_, e⟩ | ⟨_, hn, _⟩ | ⟨_, _, hf, e⟩ | ⟨hk, _, hok, e⟩
-    · rw [e]; exact ⟨hno, Or.inl rfl⟩
-    · rw [Option.isNone_iff_eq_none] at hn; rw [hn] at hp; cases hp
-    · rw [e]
-      exact ⟨saveBlock_orphans_empty _ _ hno.1 hno.2, Or.inl (saveBlock_headers_of_fail _ _ hf)⟩
-    · rw [e]
-      have hso := saveBlock_orphans_empty s.node b hno.1 hno.2
-      rw [saveSubBlock_no_waiting _ _ _ hso.2]
-      dsimp only
-      have hto := tryReorganize_orphans (s.node.saveBlock b).1 (s.node.saveBlock b).1.bestChain
-      rw [hto.1, hto.2, tryReorganize_headers]
-      refine ⟨hso, Or.inr ⟨?_, (saveBlock_headers_of_ok _ _ hok).1⟩⟩
-      have : (!(alreadyProcessed s.node b) && (s.node.header b.parent).isSome && !s.validBlock b) = false := by
-        simpa using hc
-      rw [hk, hp] at this
-      simpa using this
+  · exact fun x h => Or.inr h
+  · intro x h
+    rcases List.mem_append.mp h with h | h
+    · exact Or.inr h
+    · exact Or.inl (by simpa using h)
+
+/-- the chain step of a delivery: every stored header is an old one (by id) or was validated
+    between — the delivered block, or one that waited in the pool; the pool afterwards holds old
+    orphans and possibly the delivered block -/
+theorem chainProcessBlock_prov (s : NodeLedger.State) (b : Header) :
+    Prov s (fun x => x = b ∨ x ∈ s.node.orphans) s.node (s.chainProcessBlock b).1 ∧
+    (∀ x, x ∈ (s.chainProcessBlock b).1.orphans → x = b ∨ x ∈ s.node.orphans) := by
+  rcases chainProcessBlock_cases s b with ⟨_, e⟩ | ⟨_, _, e⟩ | ⟨_, _, _, e⟩ | ⟨_, _, _, e⟩
+  · rw [e]; exact ⟨Prov.refl _ _ _, fun x h => Or.inr h⟩
+  · rw [e]; exact ⟨Prov.of_eq _ _ (orphanAdd_headers _ _), orphanAdd_orphans_sub _ _⟩
+  · rw [e]
+    exact ⟨saveBlockVn_prov s _ s.node b (Or.inl rfl), fun x h => Or.inr (saveBlockVn_orphans_sub s s.node b x h)⟩
+  · rw [e]
+    dsimp only
+    have p1 := saveBlockVn_prov s (fun x => x = b ∨ x ∈ s.node.orphans) s.node b (Or.inl rfl)
+    have hsub : ∀ x, x ∈ (s.saveBlockVn s.node b).1.orphans → x ∈ s.node.orphans := saveBlockVn_orphans_sub s s.node b
+    obtain ⟨p2, s2⟩ := saveSubBlockVn_prov s (fun x => x = b ∨ x ∈ s.node.orphans)
+      (s.saveBlockVn s.node b).1.fuel (s.saveBlockVn s.node b).1 b.id (fun x hx => Or.inr (hsub x hx))
+    refine ⟨Prov.trans (Prov.trans p1 p2) (Prov.of_eq _ _ (tryReorganize_headers _ _)), ?_⟩
+    intro x hx
+    rw [(tryReorganize_orphans _ _).1] at hx
+    exact Or.inr (hsub x (s2 x hx))
 
 /-! ### one verification message -/
 
@@ -131,49 +243,90 @@ theorem authVerification_headers (s : Node.State) (order src tgt : Nat) (sigOk :
 
 /-! ### runs -/
 
-theorem step_noOrphans (s : NodeLedger.State) (e : Ev) (hno : NoOrphans s)
-    (hp : ∀ b, e = Ev.deliver b → (s.node.header b.parent).isSome = true) : NoOrphans (step s e) := by
-  cases e with
-  | deliver b => exact (deliver_headers s b hno (hp b rfl)).1
-  | vote o src tgt ok =>
-    simp only [step, NodeLedger.State.authVerification]
-    obtain ⟨_, _, _, _, ho, hpo, _, _⟩ := settle_frame s (s.node.authVerification o src tgt ok).1 (s.node.authVerification o src tgt ok).2
-    unfold NoOrphans
-    rw [ho, hpo]
-    have := authVerification_orphans s.node o src tgt ok
-    rw [this.1, this.2]; exact hno
-  | restart =>
-    simp only [step]
-    cases h : s.restart with
-    | none => exact hno
-    | some s' =>
-      simp only
-      unfold NodeLedger.State.restart at h
-      cases hn : s.node.restart with
-      | none => rw [hn] at h; cases h
-      | some n' =>
-        rw [hn] at h
-        simp only [Option.map_some, Option.some.injEq] at h
-        subst h
-        obtain ⟨_, _, h3, h4⟩ := restart_frame s.node n' hn
-        exact ⟨h3, h4⟩
+/-- `x` has reached the node: it waited in the pool at the start, or was delivered -/
+def WasDelivered (init : NodeLedger.State) (evs : List Ev) (x : Header) : Prop :=
+  x ∈ init.node.orphans ∨ Ev.deliver x ∈ evs
 
-/-- one event: every stored header has the id of an earlier stored header, or is the delivered
-    block, which passed `validBlock` -/
-theorem step_headers (s : NodeLedger.State) (e : Ev) (hno : NoOrphans s)
-    (hp : ∀ b, e = Ev.deliver b → (s.node.header b.parent).isSome = true) :
+/-- block `id` was saved by `saveBlock` during some delivery `b` of the history, in a node state
+    `n` between the states before and after that delivery, in which its parent was stored and
+    `validBlock` answered true; the block itself had reached the node by then -/
+def StoredValid (init : NodeLedger.State) (evs : List Ev) (id : Nat) : Prop :=
+  ∃ pre b suf n x, evs = pre ++ Ev.deliver b :: suf ∧ x.id = id ∧
+    WasDelivered init (pre ++ [Ev.deliver b]) x ∧
+    StoredMono (run init pre).node n ∧ StoredMono n (run init (pre ++ [Ev.deliver b])).node ∧
+    (n.header x.parent).isSome = true ∧ (run init pre).validIn n x = true
+
+/-- block `id` was attached to the main chain by an accepted reorganisation -/
+def Attached (init : NodeLedger.State) (evs : List Ev) (id : Nat) : Prop :=
+  ∃ pre e suf att det a, evs = pre ++ e :: suf ∧
+    Moved (run init pre) (step (run init pre) e) att det ∧ a ∈ att ∧ a.id = id
+
+theorem Attached.cons {init : NodeLedger.State} {e : Ev} {evs : List Ev} {id : Nat}
+    (h : Attached (step init e) evs id) : Attached init (e :: evs) id := by
+  obtain ⟨pre, e', suf, att, det, a, h1, h2, h3, h4⟩ := h
+  exact ⟨e :: pre, e', suf, att, det, a, by rw [h1]; rfl, h2, h3, h4⟩
+
+theorem StoredValid.append {init : NodeLedger.State} {evs : List Ev} {id : Nat}
+    (h : StoredValid init evs id) (more : List Ev) : StoredValid init (evs ++ more) id := by
+  obtain ⟨pre, b, suf, n, x, h1, h2, h3, h4, h5, h6, h7⟩ := h
+  exact ⟨pre, b, suf ++ more, n, x, by rw [h1]; simp, h2, h3, h4, h5, h6, h7⟩
+
+/-- the pool after one event: old orphans, or the delivered block -/
+theorem step_orphans (s : NodeLedger.State) (e : Ev) :
+    ∀ x, x ∈ (step s e).node.orphans → x ∈ s.node.orphans ∨ e = Ev.deliver x := by
+  intro x hx
+  cases e with
+  | deliver b =>
+    simp only [step, processBlock_eq_settle] at hx
+    obtain ⟨_, _, _, _, ho, _⟩ := settle_frame s (s.chainProcessBlock b).1 (s.chainProcessBlock b).2
+    rw [ho] at hx
+    rcases (chainProcessBlock_prov s b).2 x hx with h | h
+    · right; rw [h]
+    · left; exact h
+  | vote o src tgt ok =>
+    simp only [step, NodeLedger.State.authVerification] at hx
+    obtain ⟨_, _, _, _, ho, _⟩ := settle_frame s (s.node.authVerification o src tgt ok).1 (s.node.authVerification o src tgt ok).2
+    rw [ho, (authVerification_orphans s.node o src tgt ok).1] at hx
+    left; exact hx
+  | restart =>
+    simp only [step] at hx
+    cases hr : s.restart with
+    | none => rw [hr] at hx; left; exact hx
+    | some s' =>
+      rw [hr] at hx
+      simp only at hx
+      unfold NodeLedger.State.restart at hr
+      cases hn : s.node.restart with
+      | none => rw [hn] at hr; cases hr
+      | some n' =>
+        rw [hn] at hr
+        simp only [Option.map_some, Option.some.injEq] at hr
+        subst hr
+        obtain ⟨_, _, h3, _⟩ := restart_frame s.node n' hn
+        rw [h3] at hx; cases hx
+
+/-- one event: every stored header has the id of an earlier stored header, or its block was
+    validated during this delivery -/
+theorem step_headers (s : NodeLedger.State) (e : Ev) :
     ∀ h, h ∈ (step s e).node.headers →
       (∃ h0, h0 ∈ s.node.headers ∧ h0.id = h.id) ∨
-      (∃ b, e = Ev.deliver b ∧ b.id = h.id ∧ s.validBlock b = true) := by
+      (∃ b, e = Ev.deliver b ∧
+        ValidatedBetween s (fun x => x = b ∨ x ∈ s.node.orphans) s.node (step s e).node h.id) := by
   intro h hh
   cases e with
   | deliver b =>
-    rcases (deliver_headers s b hno (hp b rfl)).2 with e1 | ⟨hv, e1⟩
-    · simp only [step] at hh; rw [e1] at hh; exact Or.inl ⟨h, hh, rfl⟩
-    · simp only [step] at hh; rw [e1] at hh
-      rcases List.mem_cons.mp hh with e2 | e2
-      · right; exact ⟨b, rfl, by rw [e2]; rfl, hv⟩
-      · left; exact ⟨h, (List.mem_filter.mp e2).1, rfl⟩
+    have hnode : (step s (Ev.deliver b)).node.headers = (s.chainProcessBlock b).1.headers := by
+      simp only [step, processBlock_eq_settle]
+      exact (settle_frame s _ _).2.1
+    rw [hnode] at hh
+    rcases (chainProcessBlock_prov s b).1.2 h hh with h1 | ⟨n, x, e1, px, m1, m2, hp, hv⟩
+    · exact Or.inl h1
+    · right
+      refine ⟨b, rfl, n, x, e1, px, m1, ?_, hp, hv⟩
+      intro id hi
+      have := m2 id hi
+      simp only [State.header, hnode]
+      exact this
   | vote o src tgt ok =>
     simp only [step, NodeLedger.State.authVerification] at hh
     obtain ⟨_, hhd, _⟩ := settle_frame s (s.node.authVerification o src tgt ok).1 (s.node.authVerification o src tgt ok).2
@@ -197,26 +350,46 @@ theorem step_headers (s : NodeLedger.State) (e : Ev) (hno : NoOrphans s)
         rw [h2] at hh
         exact Or.inl ⟨h, hh, rfl⟩
 
-/-- along a parents-first run without orphans at the start: no orphans ever, and every stored
-    header is an initial one or was `Validated` -/
-theorem run_headers : ∀ (evs : List Ev) (init : NodeLedger.State), NoOrphans init → ParentsFirst init evs →
-    NoOrphans (run init evs) ∧
+/-- along ANY run: every block in the pool has been delivered (or waited there at the start) -/
+theorem run_orphans : ∀ (evs : List Ev) (init : NodeLedger.State),
+    ∀ x, x ∈ (run init evs).node.orphans → WasDelivered init evs x
+  | [], _, x, hx => Or.inl hx
+  | e :: evs, init, x, hx => by
+    rcases run_orphans evs (step init e) x hx with h | h
+    · rcases step_orphans init e x h with h1 | h1
+      · exact Or.inl h1
+      · right; rw [h1]; exact List.mem_cons_self
+    · exact Or.inr (List.mem_cons_of_mem _ h)
+
+theorem WasDelivered.cons {init : NodeLedger.State} {e : Ev} {evs : List Ev} {x : Header}
+    (h : WasDelivered (step init e) evs x) : WasDelivered init (e :: evs) x := by
+  rcases h with h | h
+  · rcases step_orphans init e x h with h1 | h1
+    · exact Or.inl h1
+    · right; rw [h1]; exact List.mem_cons_self
+  · exact Or.inr (List.mem_cons_of_mem _ h)
+
+theorem StoredValid.cons {init : NodeLedger.State} {e : Ev} {evs : List Ev} {id : Nat}
+    (h : StoredValid (step init e) evs id) : StoredValid init (e :: evs) id := by
+  obtain ⟨pre, b, suf, n, x, h1, h2, h3, h4, h5, h6, h7⟩ := h
+  exact ⟨e :: pre, b, suf, n, x, by rw [h1]; rfl, h2, WasDelivered.cons h3, h4, h5, h6, h7⟩
+
+/-- along ANY run, in any delivery order: every stored header is an initial one (by id) or its
+    block was `StoredValid` -/
+theorem run_headers : ∀ (evs : List Ev) (init : NodeLedger.State),
     ∀ h, h ∈ (run init evs).node.headers →
-      (∃ h0, h0 ∈ init.node.headers ∧ h0.id = h.id) ∨ Validated init evs h.id
-  | [], init, hno, _ => ⟨hno, fun h hh => Or.inl ⟨h, hh, rfl⟩⟩
-  | e :: evs, init, hno, hpf => by
-    have hp : ∀ b, e = Ev.deliver b → (init.node.header b.parent).isSome = true := by
-      intro b he; subst he; exact hpf.head
-    have hno1 := step_noOrphans init e hno hp
-    obtain ⟨hno2, ih⟩ := run_headers evs (step init e) hno1 hpf.tail
-    refine ⟨hno2, ?_⟩
-    intro h hh
-    rcases ih h hh with ⟨h0, hm, hid⟩ | hv
-    · rcases step_headers init e hno hp h0 hm with ⟨h1, hm1, hid1⟩ | ⟨b, he, hb, hv⟩
+      (∃ h0, h0 ∈ init.node.headers ∧ h0.id = h.id) ∨ StoredValid init evs h.id
+  | [], _, h, hh => Or.inl ⟨h, hh, rfl⟩
+  | e :: evs, init, h, hh => by
+    rcases run_headers evs (step init e) h hh with ⟨h0, hm, hid⟩ | hv
+    · rcases step_headers init e h0 hm with ⟨h1, hm1, hid1⟩ | ⟨b, he, n, x, e1, px, m1, m2, hp, hv⟩
       · left; exact ⟨h1, hm1, hid1.trans hid⟩
       · right
         subst he
-        exact ⟨[], b, evs, rfl, hb.trans hid, hp b rfl, hv⟩
+        refine ⟨[], b, evs, n, x, rfl, e1.trans hid, ?_, m1, m2, hp, hv⟩
+        rcases px with px | px
+        · right; rw [px]; exact List.mem_cons_self
+        · left; exact px
     · right; exact hv.cons
 
 /-- along any run: every main-chain index entry is an initial one or its block was `Attached` -/
@@ -233,5 +406,23 @@ theorem run_index : ∀ (evs : List Ev) (init : NodeLedger.State),
         · right
           exact ⟨[], e, evs, att, det, a, rfl, hm, ha, by rw [e1]⟩
     · right; exact h.cons
+
+/-- no orphans around: a delivery with stored parent leaves none -/
+theorem deliver_noOrphans (s : NodeLedger.State) (b : Header) (hno : NoOrphans s)
+    (hp : (s.node.header b.parent).isSome = true) : NoOrphans (s.processBlock b).1 := by
+  rw [processBlock_eq_settle]
+  obtain ⟨_, _, _, _, ho, hpo, _, _⟩ := settle_frame s (s.chainProcessBlock b).1 (s.chainProcessBlock b).2
+  unfold NoOrphans
+  rw [ho, hpo]
+  rcases chainProcessBlock_cases s b with ⟨_, e⟩ | ⟨_, hn, _⟩ | ⟨_, _, _, e⟩ | ⟨_, _, _, e⟩
+  · rw [e]; exact hno
+  · rw [Option.isNone_iff_eq_none] at hn; rw [hn] at hp; cases hp
+  · rw [e]; exact saveBlockVn_orphans_empty s s.node b hno.1 hno.2
+  · rw [e]
+    have hso := saveBlockVn_orphans_empty s s.node b hno.1 hno.2
+    rw [saveSubBlockVn_no_waiting _ _ _ _ hso.2]
+    dsimp only
+    have hto := tryReorganize_orphans (s.saveBlockVn s.node b).1 (s.saveBlockVn s.node b).1.bestChain
+    rw [hto.1, hto.2]; exact hso
 
 end BytomModel.Lemmas.C13
